@@ -7,6 +7,7 @@ diffing, evidence, replay files, known findings and the verdict logic.
 import fcntl
 import hashlib
 import json
+import logging
 import os
 import random
 import re
@@ -47,6 +48,29 @@ TRUSTED_BASE = [
     'Lean compiler and runtime of the native driver mido_driver (its output, not the kernel, is diffed against the implementation)',
     'CPython 3.12 semantics of ints, lists, dicts, str methods, struct, codecs, threading.RLock, sockets',
 ]
+
+
+class _FormattingSink(logging.Handler):
+    """An application may run with logging at DEBUG level and a handler that formats every record (a log file): the
+    properties hold in such a process as well.  The checks therefore always run that way: every record of every logger is
+    formatted (its arguments evaluated through %r / %s) and thrown away."""
+
+    def emit(self, record):
+        try:
+            self.format(record)
+        except Exception:      # noqa: BLE001 - a failing __repr__ in a log call is the library's business, not the sink's
+            pass
+
+
+def _logging_on():
+    root = logging.getLogger()
+    if not any(isinstance(h, _FormattingSink) for h in root.handlers):
+        root.addHandler(_FormattingSink())
+    root.setLevel(logging.DEBUG)
+    logging.captureWarnings(False)
+
+
+_logging_on()
 
 
 def import_mido():
